@@ -28,7 +28,6 @@ NOT_APPLICABLE = {
     "C26": "2-safety property comparing two whole command runs",
     "C27": "2-safety property comparing two whole command runs",
     "C30": "inter-process schedules on a shared filesystem (Kani has no concurrency; Verus permission types do not model files)",
-    "C31": "depends on git, semver crate and filesystem; the extractable kernels reduce to assumed contracts of those dependencies",
     "C33": "schedules/histories over the JIT and a background C compiler thread",
     "C34": "histories over the JIT module cache",
 }
